@@ -60,7 +60,20 @@ pub fn abstract_input(
     script_sig: &Script,
     witness: &[Vec<u8>],
 ) -> Value {
-    let sp = Spend { tx, prevout };
+    abstract_input_multi(u, tx, 0, &[prevout.clone()], prevout, script_sig, witness)
+}
+
+/// same for input `idx` of a multi-input transaction with all previous outputs given
+pub fn abstract_input_multi(
+    u: &Universe,
+    tx: &Transaction,
+    idx: usize,
+    prevouts: &[TxOut],
+    prevout: &TxOut,
+    script_sig: &Script,
+    witness: &[Vec<u8>],
+) -> Value {
+    let sp = Spend { tx, prevout, idx, prevouts: prevouts.to_vec() };
     let spk = prevout.script_pubkey.as_bytes();
     let value: Amount = prevout.value;
     let ssig_p = scriptsig_pushes(script_sig);
